@@ -398,15 +398,20 @@ class Ctx:
                         base = {k: len(getattr(self, k)) for k in self._LISTS}
                         base_fn, base_st, base_md = dict(self.functions), set(self.stubs), set(self.models)
                         self.native.proc, self.native.calls = None, 0
+                        for nn in [self.native_release] + list(getattr(self, 'extra_natives', [])):
+                            if nn is not None:
+                                nn.proc = None          # a worker never talks to a replay process its parent started
                         self.solvers.queries = 0
                         self.solvers.time = {k: 0.0 for k in self.solvers.time}
                         self.solvers.answers = {k: {} for k in self.solvers.answers}
                         w0, x0, v0 = self.witnesses, dict(self.extra), self.validation_samples
                         self.guarded(name, fn)
-                        try:
-                            self.native.close()
-                        except Exception:
-                            pass
+                        for nn in [self.native, self.native_release] + list(getattr(self, 'extra_natives', [])):
+                            try:
+                                if nn is not None:
+                                    nn.close()
+                            except Exception:
+                                pass
                         delta = {k: getattr(self, k)[base[k]:] for k in self._LISTS}
                         delta.update(functions={k: v for k, v in self.functions.items() if k not in base_fn}, stubs=self.stubs - base_st, models=self.models - base_md,
                                      witnesses=self.witnesses - w0, validation_samples=self.validation_samples - v0,
